@@ -253,5 +253,5 @@ Spec == Init /\ [][Next]_allvars
 
 \* the observer's clauses are invariants of the design
 NoClause == chk = {}
-DeadlineInv == C01_Deadline /\ C05_Deadline
+DeadlineInv == C01_Deadline /\ C05_Deadline /\ C04_Deadline
 =============================================================================
